@@ -180,3 +180,103 @@ VERIF_HARNESS(c18_uri) {
   if (env_alloc_failed >= 1) VERIF_REACH("uri: an allocation failed");
 #endif
 }
+
+/* ---- 6: observe registration --------------------------------------------------------------------------------------------------- */
+#ifdef C18_OBSERVE
+/* the cache key is a SHA-256 computed in GnuTLS (not encodable): an allocation of the key object that may fail like any other */
+coap_cache_key_t *
+coap_cache_derive_key_w_ignore(coap_session_t *session, const coap_pdu_t *pdu, coap_cache_session_based_t session_based,
+                               const uint16_t *cache_ignore_options, size_t cache_ignore_count) {
+  (void)session; (void)pdu; (void)session_based; (void)cache_ignore_options; (void)cache_ignore_count;
+  coap_cache_key_t *k = (coap_cache_key_t *)coap_malloc_type(COAP_CACHE_KEY, sizeof(coap_cache_key_t));
+  if (k) memset(k, 0, sizeof(*k));
+  return k;
+}
+void coap_delete_cache_key(coap_cache_key_t *cache_key) { coap_free_type(COAP_CACHE_KEY, cache_key); }
+
+VERIF_HARNESS(c18_observe) {
+  static coap_resource_t res;
+  static const uint8_t tokb[2] = {0x51, 0x52};
+  coap_bin_const_t token = {2, tokb};
+  coap_subscription_t *s;
+  unsigned ref_before;
+  ne_init();
+  ne_sess.type = COAP_SESSION_TYPE_SERVER;
+  memset(&res, 0, sizeof(res));
+  res.context = &ne_ctx;
+  res.observable = 1;
+  env_alloc_fail_enabled = 0;
+  coap_pdu_t *req = coap_pdu_init(COAP_MESSAGE_CON, COAP_REQUEST_CODE_GET, 0x1234, 64);
+  coap_add_token(req, 2, tokb);
+  coap_add_option(req, COAP_OPTION_OBSERVE, 0, NULL);
+  coap_add_option(req, COAP_OPTION_URI_PATH, 1, (const uint8_t *)"o");
+  ref_before = ne_sess.ref;
+  env_alloc_fail_enabled = 1;
+  s = coap_add_observer(&res, &ne_sess, &token, req);
+  if (!s) {
+    VERIF_ASSERT(res.subscribers == NULL, "observe: a failed registration leaves no half-built subscription behind");
+    VERIF_ASSERT(ne_sess.ref == ref_before, "observe: a failed registration holds no session reference");
+  } else {
+    VERIF_ASSERT(res.subscribers == s && s->next == NULL && ne_sess.ref == ref_before + 1, "observe: success registers one subscription holding one session reference");
+  }
+  if (env_alloc_failed == 0) VERIF_ASSERT(s != NULL, "observe: without failures the registration succeeds");
+  env_alloc_fail_enabled = 0;
+  if (!s) {
+    s = coap_add_observer(&res, &ne_sess, &token, req);
+    VERIF_ASSERT(s != NULL && res.subscribers == s, "observe: with memory available the next registration succeeds");
+  }
+  /* documented cleanup; afterwards nothing may be left allocated (memory-leak check) */
+  VERIF_ASSERT(coap_delete_observer(&res, &ne_sess, &token) == 1 && res.subscribers == NULL, "observe: the subscription can be cancelled");
+  VERIF_ASSERT(ne_sess.ref == ref_before, "observe: cancelling gives the session reference back");
+  coap_delete_pdu(req);
+#ifdef WITNESS
+  if (env_alloc_failed >= 1) VERIF_REACH("observe: an allocation failed");
+#endif
+}
+#endif
+
+/* ---- 7: handing a large body to libcoap (client Block1): coap_add_data_large_request_lkd --------------------------------------- */
+#ifdef C18_LARGE
+static int large_rel_calls;
+static void large_release(coap_session_t *session, void *app_ptr) { (void)session; (void)app_ptr; large_rel_calls++; }
+VERIF_HARNESS(c18_large) {
+  VERIF_IN_BUF(body, 40);
+  static const uint8_t tokb[2] = {0x51, 0x52};
+  int r;
+  ne_init();
+  ne_sess.block_mode = COAP_BLOCK_USE_LIBCOAP | COAP_BLOCK_SINGLE_BODY;
+  env_alloc_fail_enabled = 0;
+  large_rel_calls = 0;
+  coap_pdu_t *pdu = coap_pdu_init(COAP_MESSAGE_CON, COAP_REQUEST_CODE_PUT, 0x1234, 100);
+  coap_add_token(pdu, 2, tokb);
+  coap_add_option(pdu, COAP_OPTION_URI_PATH, 1, (const uint8_t *)"r");
+  env_alloc_fail_enabled = 1;
+  r = coap_add_data_large_request_lkd(&ne_sess, pdu, 40, body, large_release, NULL);
+  env_alloc_fail_enabled = 0;
+  if (!r) {
+    VERIF_ASSERT(large_rel_calls == 1, "large: a refused body is released exactly once");
+    VERIF_ASSERT(ne_sess.lg_xmit == NULL, "large: a refused body leaves no transfer state behind");
+    /* the PDU still belongs to the caller and must still be a valid object */
+    VERIF_ASSERT(pdu->actual_token.length == 2 && pdu->actual_token.s[0] == 0x51, "large: the caller's PDU is intact after the refusal");
+  } else {
+    coap_lg_xmit_t *lg = ne_sess.lg_xmit;
+    VERIF_ASSERT(large_rel_calls == 0 && lg != NULL && lg->next == NULL, "large: an accepted 40-byte body is kept by one transfer state");
+    LL_DELETE(ne_sess.lg_xmit, lg);
+    coap_block_delete_lg_xmit(&ne_sess, lg);
+    VERIF_ASSERT(large_rel_calls == 1, "large: dropping the transfer releases the body exactly once");
+  }
+  if (env_alloc_failed == 0) VERIF_ASSERT(r, "large: without failures the body is accepted");
+  coap_delete_pdu(pdu);
+  {
+    coap_pdu_t *p2 = coap_pdu_init(COAP_MESSAGE_CON, COAP_REQUEST_CODE_PUT, 0x1235, 100);
+    coap_add_token(p2, 2, tokb);
+    VERIF_ASSERT(p2 && coap_add_data_large_request_lkd(&ne_sess, p2, 40, body, large_release, NULL) == 1, "large: with memory available the next upload is accepted");
+    coap_lg_xmit_t *lg = ne_sess.lg_xmit;
+    if (lg) { LL_DELETE(ne_sess.lg_xmit, lg); coap_block_delete_lg_xmit(&ne_sess, lg); }
+    coap_delete_pdu(p2);
+  }
+#ifdef WITNESS
+  if (env_alloc_failed >= 1 && !r) VERIF_REACH("large: an allocation failed");
+#endif
+}
+#endif
